@@ -917,15 +917,21 @@ def rule_r5(chk, prog):
                     want_rev = (popm == 'pop')
                     has_rev = f'reversed({popv}.data)' in txt
                     plain = f'in {popv}.data' in txt and not has_rev
-                    ok = len(exts) == 1 and leaf_f and (
-                        has_rev if want_rev else plain) and \
-                        f'{depthv} + 1' in txt
-                    chk.check('C12.R5', where, c, ok,
-                              'children must be pushed once, under "not '
-                              'leaf", with depth+1, '
-                              + ('reversed (stack)' if want_rev else
-                                 'in order (queue)'), loc=m.loc(c),
+                    complete = len(exts) == 1 and leaf_f and (
+                        has_rev or plain) and f'{depthv} + 1' in txt
+                    chk.check('C12.R5', where, f'{unparse(c)} [complete]',
+                              complete,
+                              'all children must be pushed exactly once, '
+                              'under "not leaf", with depth+1', loc=m.loc(c),
                               nontrivial=True)
+                    if complete:
+                        chk.check('C12.R5', where, f'{unparse(c)} [order]',
+                                  has_rev if want_rev else plain,
+                                  'children must be pushed '
+                                  + ('reversed (stack)' if want_rev else
+                                     'in order (queue)')
+                                  + ' to be visited in the documented order',
+                                  loc=m.loc(c), nontrivial=True)
                 else:
                     # no push: leaf, depth limit, or non-Node element
                     ok = leaf_t or any(limitp in t for (t, _) in facts)\
